@@ -1,6 +1,7 @@
 (* Shared by C18 and C09: port names, the port tree, and the fragment of
    rtosc_match_path (src/dispatch.c:71-112) that port names built from literal
-   characters, '#N', '/' and a ':' argument part exercise.  No proofs here.
+   characters, '#N', '/' and a ':' argument part exercise (since stage 2 the
+   matcher itself is C05's model, Match/MatchModel.v).  No proofs here.
 
    C strings are lists of bytes without the terminator; a char pointer into a
    string is the suffix that starts at the pointee, the byte under a pointer
@@ -8,15 +9,14 @@
    in the modelled code happens after the byte under it was seen to be
    non-zero, so a suffix never has to move past the terminator. *)
 From Coq Require Import List ZArith Bool Arith.
+From RtoscV Require Import Match.PatSpec Match.MatchModel.
 Import ListNotations.
 Local Open Scope Z_scope.
 
 Notation byte := Z (only parsing).
 Notation str := (list Z) (only parsing).
 
-Definition hd0 (s : str) : byte := match s with [] => 0 | c :: _ => c end.
 Definition is_nil {A} (l : list A) : bool := match l with [] => true | _ => false end.
-Definition is_digit (c : byte) : bool := (48 <=? c) && (c <=? 57).
 
 Fixpoint streqb (a b : str) : bool :=
   match a, b with
@@ -38,19 +38,9 @@ Fixpoint has_char (c : byte) (s : str) : bool :=
 
 (* atoi on a string that starts with its digits (callers either tested
    isdigit or the name has digits after '#'); no digit = 0 as in C.  Values are
-   unbounded: more than 9 digits overflow int in C (stated precondition). *)
-Fixpoint atoi_acc (acc : Z) (s : str) : Z :=
-  match s with
-  | c :: t => if is_digit c then atoi_acc (acc * 10 + (c - 48)) t else acc
-  | [] => acc
-  end.
+   unbounded: more than 9 digits overflow int in C (stated precondition).
+   atoi_acc / skip_digits / hd0 / isdigit are C05's (Match/MatchModel.v). *)
 Definition atoi (s : str) : Z := atoi_acc 0 s.
-
-Fixpoint skip_digits (s : str) : str :=
-  match s with
-  | c :: t => if is_digit c then skip_digits t else s
-  | [] => []
-  end.
 
 (* snprintf("%d", i) for 0 <= i *)
 Fixpoint dec_fuel (fuel : nat) (n : Z) (acc : str) : str :=
@@ -61,47 +51,6 @@ Fixpoint dec_fuel (fuel : nat) (n : Z) (acc : str) : str :=
       if n <? 10 then acc' else dec_fuel f (n / 10) acc'
   end.
 Definition dec (n : Z) : str := dec_fuel (S (Z.to_nat (Z.log2 n))) n [].
-
-(* ---- rtosc_match_number -------------------------------------------------- *)
-(* pattern points behind the '#'.  Result: None = no match; Some msg' = match,
-   msg advanced past its digits (the pattern's digits are skipped by the
-   caller's [skip] mode below) *)
-Definition match_number (pattern msg : str) : option str :=
-  if negb (is_digit (hd0 pattern)) || negb (is_digit (hd0 msg)) then None
-  else if atoi msg <? atoi pattern then Some (skip_digits msg) else None.
-
-(* ---- rtosc_match_path ------------------------------------------------------ *)
-Inductive mres :=
-| MNull                                  (* return NULL *)
-| MSome (pat_rest : str) (path_end : str)   (* returned pattern pointer, *path_end *)
-| MUnsupported.                          (* '{' or '*' in the pattern: outside the modelled fragment *)
-
-(* One round of the while(1) per pattern character.  [skip] = true right
-   after a '#': the pattern's digits were consumed inside rtosc_match_number
-   (while(isdigit( **pattern))++*pattern), which the structural recursion does
-   one character at a time. *)
-Fixpoint match_path (skip : bool) (pattern msg : str) {struct pattern} : mres :=
-  match pattern with
-  | [] =>
-      (* *pattern == 0: only the verbatim branch can apply *)
-      match msg with [] => MSome [] [] | _ => MNull end
-  | p :: pt =>
-      if skip && is_digit p then match_path true pt msg
-      else if (p =? 58) && is_nil msg then MSome pattern msg
-      else if (p =? 123) || (p =? 42) then MUnsupported
-      else if (p =? 47) && (hd0 msg =? 47) then
-        if is_nil pt || (hd0 pt =? 58) then MSome pt (tl msg)
-        else match_path false pt (tl msg)
-      else if p =? 35 then
-        match match_number pt msg with
-        | None => MNull
-        | Some msg' => match_path true pt msg'
-        end
-      else if p =? hd0 msg then
-        (* p <> 0 here, so *msg <> 0 *)
-        match_path false pt (tl msg)
-      else MNull
-  end.
 
 (* ---- the port tree ----------------------------------------------------------- *)
 (* meta: None = NULL pointer, Some block = the bytes of the metadata block
